@@ -174,6 +174,12 @@ theorem export_text_fixed_point (ct : LexText.CT) (h : LexText.CT.RWF ct) :
     (parseString ('=' :: (render ct.toAst).toList)).map render = .ok (render ct.toAst) := by
   rw [export_text_reparses ct h]; rfl
 
+/-- … and the blanks `render` writes are one admissible choice: any other placement the tokeniser allows parses the same -/
+theorem export_text_any_blanks (ct : LexText.CT) (h : LexText.CT.RWF ct) (gs : List LexText.GT)
+    (hf : LexText.fsts gs = ct.fspec) (hg : LexText.GapsOK gs none) (hl : (gs.getLast?.map (·.2)) = some 0) :
+    parseString ('=' :: LexText.textG gs) = .ok ct.toAst :=
+  LexText.exported_text_with_blanks_parses ct h gs hf hg hl
+
 /-- the decidable shape used by the driver (`rtext`) implies the hypothesis of the theorem -/
 theorem export_text_class (ct : LexText.CT) (h : LexText.CT.WF ct) (hs : ct.shapeOK = true) : LexText.CT.RWF ct :=
   LexText.rwf_of_wf_shape ct h hs
